@@ -17,7 +17,7 @@ RULE = ('for every formula of the set, every way of naming a subset of its prope
         'sub-formulas share a name, i.e. are referenced twice; nested names), presented through add_sub_spec() and as one multi-assertion text, '
         'plus declared constants for thresholds and bounds; discrete online (plain and pastified): product BFS of the real modular monitor, every '
         'update() must equal the reference rho of the INLINED formula (delayed by the horizon after pastify); discrete/dense offline: all traces (discrete: a second time through ONE data set that the caller refills in place before each evaluate()) / '
-        'grid signals, values equal to the inlined reference; dense online: all schedules of probe signals; constants also declared with Python numbers; interface-aware layer: modular presentations whose named (also arithmetic) sub-formulas are shared by several predicates, under 6 (semantics, input/output) configurations and the 4 monitor kinds, modular result = result of the inlined text on the same real monitor; non-trivial = checked transition/evaluation of a specification with at least one stateful named sub-formula')
+        'grid signals, values equal to the inlined reference; dense online: all schedules of probe signals (incl. plateau signals), every call also compared - extent and values - with the inlined text on a second real monitor fed in lock-step; constants also declared with Python numbers; interface-aware layer: modular presentations whose named (also arithmetic) sub-formulas are shared by several predicates, under 6 (semantics, input/output) configurations and the 4 monitor kinds, modular result = result of the inlined text on the same real monitor; non-trivial = checked transition/evaluation of a specification with at least one stateful named sub-formula')
 ASSUMPTIONS = ['reference of the inlined formula (vf/refsem.py, vf/dref.py); C02/C04 establish that the inlined monitor equals that reference',
                'formulas <= 2 operators plus selected 3-operator shapes; value alphabets V3/{-1,2}']
 
@@ -375,12 +375,39 @@ class ModularSchedule(c05.ScheduleModel):
         s._vf_last = None
         s._vf_msg = None
         s._vf_compared = False
+        # the inlined text on the same real monitor, fed the same calls in lock-step
+        s._vf_twin = impl.build('ct_on', 'out = ' + F.pr(self.f), self.vs, pastify=self.pastify)
         return s
+
+    def apply(self, obj, hist, step):
+        out = c05.ScheduleModel.apply(self, obj, hist, step)
+        p = self.pos(hist)
+        batches = {v: self.signals[v][p[i]:p[i] + step[i]] for i, v in enumerate(self.vs)}
+        tw = impl.outcome(impl.ct_update, obj._vf_twin, batches)
+        if obj._vf_msg is None and out[0] == 'ok' and tw[0] == 'ok' and isinstance(out[1], list) and isinstance(tw[1], list):
+            a, b = [list(q) for q in out[1]], [list(q) for q in tw[1]]
+            ea = (a[0][0], a[-1][0]) if a else None
+            eb = (b[0][0], b[-1][0]) if b else None
+            if ea != eb:
+                obj._vf_msg = ('this update() of the modular specification returned %r, the inlined specification returned %r for the same call '
+                               '(the two results do not cover the same stretch of time)' % (a, b))
+            else:
+                for t in sorted({q[0] for q in a} | {q[0] for q in b}):
+                    if not refsem.same(dref.stepval(a, t), dref.stepval(b, t)):
+                        obj._vf_msg = 'this update() of the modular specification returned %r, the inlined specification returned %r for the same call' % (a, b)
+                        break
+        return out
+
+
+PLATEAU_SETS = {1: [{'x': ((0.0, 2.0), (1.0, 2.0), (2.0, 2.0), (3.0, -1.0))}, {'x': ((0.0, -1.0), (0.5, 2.0), (1.5, 2.0), (2.0, 2.0))}],
+                2: [{'x': ((0.0, 2.0), (1.0, 2.0), (2.0, 2.0), (3.0, -1.0)), 'y': ((0.0, 2.0), (1.5, -1.0), (2.5, 2.0), (3.0, 2.0))},
+                    {'x': ((0.0, -1.0), (0.5, 2.0), (1.5, 2.0), (3.0, 2.0)), 'y': ((0.0, -1.0), (1.0, -1.0), (2.0, 2.0), (3.0, -1.0))}]}
 
 
 def online_ct(res, mod, f, subs, text, tier):
     vs = sorted(F.fvars(f))
-    for sig in c05.signal_sets(len(vs), 'quick')[:2 if tier == 'quick' else 6]:
+    # (plus signals that keep a value over several samples while the other variable changes: the result of a named sub-formula then ends a call on a plateau)
+    for sig in c05.signal_sets(len(vs), 'quick')[:2 if tier == 'quick' else 6] + PLATEAU_SETS[len(vs)]:
         sig = {v: sig['x' if (v == 'y' and len(vs) == 1) else v] for v in vs}
         m = ModularSchedule(f, text, vs, sig, subs)
 
